@@ -293,7 +293,7 @@ func judgeQuery(c queryCase, note func(r qref, w want, known string)) string {
 		// the library clause is reported by the lib sub-check; the command
 		// cannot be judged against an inconsistent (Offset, Token)
 		rec.Discard("query/library-inconsistent")
-		return ""
+		return "DEBUG " + msg
 	}
 	// command level
 	var o runOpt
